@@ -16,7 +16,7 @@ from mathy_core import expressions as E
 from mathy_core.tree import LEFT, RIGHT, STOP, BinaryTreeNode
 
 from ..core import Report, Violation, collect, out_of_time, pmap, seed
-from ..symx import Ctx, Stats, SymBool, SymInt, explore
+from ..symx import Ctx, Stats, SymBool, SymInt, SymNum, explore
 
 OPTS = {"root_only_deep": False}
 Shape = Tuple[int, ...]  # sorted heap indices (root = 1, children 2i / 2i+1)
@@ -154,6 +154,50 @@ def link_audit(root: Any, expect_ids: List[str]) -> List[str]:
                 stack.append(ch)
     if sorted(ids) != sorted(expect_ids):
         problems.append(f"reachable nodes {sorted(ids)} != {sorted(expect_ids)}")
+    return problems
+
+
+def _inorder_nodes(root: Any) -> List[Any]:
+    out: List[Any] = []
+    steps = [0]
+
+    def rec(n: Any) -> None:
+        steps[0] += 1
+        if n is None or steps[0] > 2000:
+            return
+        rec(n.left)
+        out.append(n)
+        rec(n.right)
+
+    rec(root)
+    return out
+
+
+def _link_audit_objs(root: Any, name: Dict[int, str]) -> List[str]:
+    """link_audit by object identity (ids may repeat or be symbolic)."""
+    problems: List[str] = []
+    if root.parent is not None:
+        problems.append("root has a parent")
+    seen = set()
+    stack = [root]
+    steps = 0
+    while stack:
+        n = stack.pop()
+        steps += 1
+        if steps > 1000:
+            return problems + ["cycle"]
+        if id(n) in seen:
+            problems.append(f"node {name.get(id(n))} reachable twice")
+            continue
+        seen.add(id(n))
+        for side in ("left", "right"):
+            ch = getattr(n, side)
+            if ch is not None:
+                if ch.parent is not n:
+                    problems.append(f"{side} child {name.get(id(ch))} of {name.get(id(n))} has parent {name.get(id(ch.parent))}")
+                stack.append(ch)
+    if seen != set(name):
+        problems.append(f"reachable nodes {sorted(name.get(i, '?') for i in seen)} != {sorted(name.values())}")
     return problems
 
 
@@ -323,6 +367,49 @@ def c14_lookup(shape: Shape, flavour: str, ctx: Ctx) -> List[str]:
     return problems
 
 
+def c14_relink(shape: Shape, flavour: str, ctx: Ctx) -> List[str]:
+    """One path = one subtree that is cut off and grafted elsewhere."""
+    nodes = build_plain(shape) if flavour == "plain" else build_math(shape)
+    root = nodes[1]
+    n = len(shape)
+    problems: List[str] = []
+    # root queries must follow the links as they are NOW: ask every node, cut one subtree off (public set_side with
+    # clear_old_child_parent), ask again; graft it under a new node, ask again; put a new node above the old root, ask again
+    if n > 1:
+        mk = (lambda: BinaryTreeNode(id="top")) if flavour == "plain" else (lambda: E.NegateExpression())
+        for i in shape:
+            nodes[i].get_root()
+            nodes[i].get_root_side() if i > 1 else None
+        r2 = shape[1 + ctx.choose(n - 1, "cut")]
+        below2 = [i for i in shape if _under(i, r2)]
+        par2 = nodes[r2 // 2]
+        if r2 % 2 == 0:
+            par2.set_left(None, clear_old_child_parent=True)
+        else:
+            par2.set_right(None, clear_old_child_parent=True)
+        for i in shape:
+            want = nodes[r2] if i in below2 else root
+            if nodes[i].get_root() is not want:
+                problems.append(f"after cutting the subtree at n{r2} off, get_root of n{i} is {nodes[i].get_root().id}, expected {want.id}")
+                break
+        top = mk()
+        top.set_right(nodes[r2])
+        for i in below2:
+            if nodes[i].get_root() is not top:
+                problems.append(f"after grafting the cut subtree n{r2} under a new node, get_root of n{i} is {nodes[i].get_root().id}")
+                break
+        top2 = mk()
+        top2.set_left(root)
+        for i in shape:
+            if i not in below2 and nodes[i].get_root() is not top2:
+                problems.append(f"after putting a new node above the root, get_root of n{i} is {nodes[i].get_root().id}")
+                break
+            if i not in below2 and nodes[i].get_root_side() != LEFT:
+                problems.append(f"after putting a new node above the root, get_root_side of n{i} is {nodes[i].get_root_side()}")
+                break
+    return problems
+
+
 def _under(x: int, top: int) -> bool:
     while x > top:
         x //= 2
@@ -354,14 +441,48 @@ def _ref_from(shape: Shape, top: int, order: str) -> List[Tuple[int, int]]:
 # ------------------------------------------------------------------------------------------------
 
 
-def c15_shape(shape: Shape, flavour: str, ctx: Ctx) -> List[str]:
-    nodes = build_plain(shape) if flavour == "plain" else (build_dup(shape) if flavour == "dup" else build_math(shape))
+ID_POOL = 3
+
+
+def c15_shape(shape: Shape, flavour: Any, ctx: Optional[Ctx], force_q: Optional[int] = None) -> List[Any]:
+    """flavour 'symid': node ids are solver variables over a pool of ID_POOL labels (every pattern of repeated ids, as
+    clone() produces them); the code under test forks where it compares ids.  ('ids', labels): the same with concrete
+    string ids (replay).  In both, the assertions go by object identity, never by id."""
+    symbolic_ids = flavour == "symid"
+    by_object = symbolic_ids or isinstance(flavour, tuple)
+    nodes = build_plain(shape) if flavour == "plain" or by_object else (build_dup(shape) if flavour == "dup" else build_math(shape))
+    zids: List[Any] = []
+    if symbolic_ids:
+        assert ctx is not None
+        for i in shape:
+            z = z3.Int(f"id{i}")
+            ctx.add(z3.And(z >= 0, z < ID_POOL))
+            zids.append(z)
+            nodes[i].id = SymNum(z3.ToReal(z), True)
+    elif isinstance(flavour, tuple):
+        for i, lab in zip(shape, flavour[1]):
+            nodes[i].id = f"i{lab}"
     root = nodes[1]
     n = len(shape)
-    q = shape[ctx.choose(n, "rot")]
+    q = force_q if force_q is not None else shape[ctx.choose(n, "rot")]  # type: ignore[union-attr]
+    probs = _c15_body(shape, nodes, root, q, by_object)
+    if probs and symbolic_ids:
+        m = ctx.ensure_model()  # type: ignore[union-attr]
+        labels = [int(m.eval(z, model_completion=True).as_long()) for z in zids]
+        probs.append(("ids", labels, q))
+    return probs
+
+
+def _c15_body(shape: Shape, nodes: Dict[int, Any], root: Any, q: int, by_object: bool) -> List[Any]:
     node = nodes[q]
-    ids = [nodes[i].id for i in shape]
-    before = inorder_ids(root)
+    name = {id(nodes[i]): f"n{i}" for i in shape}
+    if by_object:
+        inorder_ids_ = lambda r: [name.get(id(x), "?") for x in _inorder_nodes(r)]  # noqa: E731
+        ids = None
+    else:
+        inorder_ids_ = inorder_ids
+        ids = [nodes[i].id for i in shape]
+    before = inorder_ids_(root)
     parent = node.parent
     grand = parent.parent if parent is not None else None
     grand_side = None
@@ -382,23 +503,23 @@ def c15_shape(shape: Shape, flavour: str, ctx: Ctx) -> List[str]:
         steps += 1
     if steps >= 100:
         return [f"rotate n{q}: parent chain does not terminate"]
-    after = inorder_ids(new_root)
+    after = inorder_ids_(new_root)
     if after != before:
         problems.append(f"rotate n{q}: in-order sequence {before} became {after}")
-    for p in link_audit(new_root, ids):
+    for p in (link_audit(new_root, ids) if ids is not None else _link_audit_objs(new_root, name)):
         problems.append(f"rotate n{q}: {p}")
     if parent is None:
         if new_root is not root or node.left is not nodes.get(2) or node.right is not nodes.get(3):
             problems.append("rotating the root changed the tree")
         return problems
     if node.parent is not grand:
-        problems.append(f"rotate n{q}: node's parent is {getattr(node.parent, 'id', None)}, expected the former grandparent")
+        problems.append(f"rotate n{q}: node's parent is {name.get(id(node.parent))}, expected the former grandparent")
     if grand is not None and getattr(grand, grand_side) is not node:
         problems.append(f"rotate n{q}: the grandparent's {grand_side} slot does not hold the rotated node")
     if (node.right if was_left else node.left) is not parent:
         problems.append(f"rotate n{q}: the former parent is not the {'right' if was_left else 'left'} child of the node")
     if parent.parent is not node:
-        problems.append(f"rotate n{q}: former parent's parent is {getattr(parent.parent, 'id', None)}")
+        problems.append(f"rotate n{q}: former parent's parent is {name.get(id(parent.parent))}")
     return problems
 
 
@@ -414,7 +535,7 @@ def worker(item: Tuple[str, Shape, str]) -> Dict[str, Any]:
     prop0, shape, flavour = item
     prop = prop0[:3]
     st = Stats()
-    fn = {"C14v": c14_shape, "C14l": c14_lookup, "C15": c15_shape}[prop0]
+    fn = {"C14v": c14_shape, "C14l": c14_lookup, "C14r": c14_relink, "C15": c15_shape}[prop0]
     part = {"stats": st, "cases": 1, "nontrivial": 1, "proved": 0, "queries": 0, "inconclusive": 0, "violations": [],
             "samples": [], "reach": {}, "inconclusive_samples": []}
     results = explore(lambda ctx: fn(shape, flavour, ctx), st)
@@ -426,6 +547,20 @@ def worker(item: Tuple[str, Shape, str]) -> Dict[str, Any]:
         part["queries"] += 1
         if not r.value:
             part["proved"] += 1
+            continue
+        if flavour == "symid":
+            # replay with the model's id labels as ordinary string ids, no engine
+            _, labels, q = r.value[-1]
+            again = c15_shape(shape, ("ids", tuple(labels)), None, force_q=q)
+            if again:
+                keys = {"shape": str(shape), "flavour": "ids", "fault": again[0].split(":")[0][:40]}
+                part["violations"].append(Violation(prop, "ids", keys, f"shape {shape}, node ids {['i%d' % v for v in labels]}: {again[0]}",
+                                                    {"kind": "tree", "property": prop0, "shape": list(shape), "flavour": ["ids", labels],
+                                                     "q": q, "prefix": [], "observed": again}))
+            else:
+                part.setdefault("engine_mismatch", 0)
+                part["engine_mismatch"] += 1
+                part.setdefault("mismatch_samples", []).append(f"{shape} symid {labels} q={q}: {r.value[0]}")
             continue
         # replay: the checks above already ran on the real, concrete objects of this path; run the path again
         again = explore_one(fn, shape, flavour, r.prefix)
@@ -478,7 +613,10 @@ def explore_one(fn: Any, shape: Shape, flavour: str, prefix: list) -> List[str]:
 
 
 def replay_record(rec: Dict[str, Any]) -> Tuple[bool, str]:
-    fn = {"C14v": c14_shape, "C14l": c14_lookup, "C15": c15_shape}[rec["property"]]
+    if isinstance(rec.get("flavour"), list):
+        probs = c15_shape(tuple(rec["shape"]), ("ids", tuple(rec["flavour"][1])), None, force_q=rec["q"])
+        return bool(probs), "; ".join(str(p) for p in probs)
+    fn = {"C14v": c14_shape, "C14l": c14_lookup, "C14r": c14_relink, "C15": c15_shape}[rec["property"]]
     probs = explore_one(fn, tuple(rec["shape"]), rec["flavour"], _prefix_unjson(rec["prefix"]))
     return bool(probs), "; ".join(probs)
 
@@ -522,10 +660,12 @@ def run(prop: str, tier: str) -> int:
     if prop == "C14":
         rep.bounds["start_nodes"] = ("every node for shapes with <= 3 levels, the root for 4-level shapes" if tier == "quick"
                                      else "every node")
-    kinds = ["C14v", "C14l"] if prop == "C14" else ["C15"]
+    kinds = ["C14v", "C14l", "C14r"] if prop == "C14" else ["C15"]
     items = [(k, s, f) for s in shapes for f in ("plain", "math") for k in kinds]
     if prop == "C15":
         items += [("C15", s, "dup") for s in shapes]
+        items += [("C15", s, "symid") for s in shapes]
+        rep.bounds["symbolic_ids"] = f"every shape also with node ids as solver variables over {ID_POOL} labels (any pattern of repeated ids)"
         deep = deep_shapes()
         items += [("C15", s, "plain") for s in deep]
         rep.bounds["duplicate_ids"] = "every shape also with ids repeated between the root's two subtrees (as after a rewrite that clones a subtree)"
